@@ -69,6 +69,7 @@ type Engine struct {
 	axiomDecls []*AxiomDecl
 	eptrDone   bool
 	curElemPtrs bool
+	curCase     string
 	rawSMT [][2]string
 	extFuncs map[string]string
 	structCount int
